@@ -49,7 +49,8 @@ def run(rep, tier, seed):
                                                 Modes=['free'], PlayFaults=['raise']),
                          cassettes=('memory', 'file'), n_conc=1, sample=2500, cap=4000)
         else:
-            chk.check('chk', gen_consts(2, 3), invariants=INVS, timeout=3000)
+            chk.check('chk', gen_consts(2, 2), invariants=INVS, timeout=3000)
+            chk.check('chk3runs', gen_consts(1, 3), invariants=INVS, timeout=3000)
             chk.generate('gen', gen_consts(1, 2), cassettes=('memory', 'file', 's3'), n_conc=2, all_paths=True, cap=150000)
             chk.generate('gen2', gen_consts(2, 2), cassettes=('memory',), n_conc=1, sample=60000, cap=90000,
                          max_states=800000)
